@@ -51,6 +51,10 @@ type ChildRes struct {
 	// library mode: the re-opened node is closed cleanly and opened again libCycles times BEFORE anything is fed; "" = every cycle
 	// came up in the state it was shut down in
 	Cycle string `json:"cycle,omitempty"`
+	// miss4.go loadTie (C07_IDXREPORT): what BlockDB.LoadBlockIndex computed at the first open - the append position of
+	// blockchain.new and, per block of the index, "<hash>:<ipos>:<data file>" (lib/chain/verif_export_c07.go)
+	IdxPos  int64    `json:"idxpos,omitempty"`
+	IdxRecs []string `json:"idxrecs,omitempty"`
 }
 
 // libCycles: clean Close + NewChainExt cycles a library-mode child performs on the re-opened directory (which of two equally high
@@ -216,6 +220,13 @@ func childMain(args []string) {
 	}
 	res.S1 = stateOf(k.Ch)
 	res.UndoForeign, res.UndoMissing = undoLook(k.Ch, dir, 8)
+	if os.Getenv("C07_IDXREPORT") != "" {
+		res.IdxPos, _, _, _, _ = k.Ch.Blocks.VerifPositions()
+		for _, rec := range k.Ch.Blocks.VerifIndexRecords() {
+			res.IdxRecs = append(res.IdxRecs, fmt.Sprintf("%s:%d:%d", hex.EncodeToString(rec.Idx[:]), rec.Ipos, rec.DatFile))
+		}
+		sort.Strings(res.IdxRecs)
+	}
 	write() // in case something below kills the process outright
 	if mode == "stage2" || mode == "stage2all" {
 		stage2(k, dir, bf, res, write, mode == "stage2all")
